@@ -192,7 +192,14 @@ Definition nsenv := list (str * str).
 Definition prefix_of (env : nsenv) (ns : str) : str :=
   match lookup_str ns env with Some p => p | None => [] end.
 
-Definition tag_of (env : nsenv) (q : qname) : str := prefix_of env (fst q) ++ [cCOLON] ++ snd q.
+(* get_nsprefix: "" for a name in no namespace; _prefixed: no colon without a prefix *)
+Definition nsprefix (env : nsenv) (ns : str) : str :=
+  match ns with [] => [] | _ => prefix_of env ns end.
+Definition tag_of (env : nsenv) (q : qname) : str :=
+  match nsprefix env (fst q) with
+  | [] => snd q
+  | p => p ++ [cCOLON] ++ snd q
+  end.
 
 Definition sXMLNSCOLON := s2l " xmlns:".
 
